@@ -497,8 +497,11 @@ impl GatewayBinder {
                 let ph = BytesN::<32>::try_from_val(&env, &topics.get(4)?).ok()?;
                 let payload = Bytes::try_from_val(&env, data).ok()?;
                 let pv = bytes_to_vec(&payload);
+                // "selfaddr": the destination address is the textual form of the sender's own address
+                let addr_txt = sstr_to_string(&addr);
+                let addr_name = if addr_txt == sstr_to_string(&caller.to_string()) { "selfaddr".to_string() } else { self.text_name(&addr_txt) };
                 Some(json!({"k": name, "caller": self.cx.name_of(&caller), "chain": self.text_name(&sstr_to_string(&chain)),
-                    "addr": self.text_name(&sstr_to_string(&addr)), "payload": self.payload_name(&pv), "ph": self.payload_name_by_hash(&ph.to_array())}))
+                    "addr": addr_name, "payload": self.payload_name(&pv), "ph": self.payload_name_by_hash(&ph.to_array())}))
             }
             "ownership_transferred" | "operatorship_transferred" => {
                 let p = Address::try_from_val(&env, &topics.get(1)?).ok()?;
@@ -638,7 +641,7 @@ impl GatewayBinder {
                 let caller_name = jstr(act, "caller");
                 let caller = self.cx.addr(&caller_name);
                 let chain = self.cx.s(&self.text(act["chain"].as_str().unwrap()));
-                let addr = self.cx.s(&self.text(act["addr"].as_str().unwrap()));
+                let addr = if act["addr"] == json!("selfaddr") { caller.to_string() } else { self.cx.s(&self.text(act["addr"].as_str().unwrap())) };
                 let payload = self.cx.bytes(&self.payload_bytes(act["payload"].as_str().unwrap()));
                 let via = act["via"].as_str().unwrap_or("direct");
                 let gw = self.gw.clone().unwrap();
